@@ -37,8 +37,13 @@ func c16CheckSet(c *Ctx, keys []string, versions []int) bool {
 	c.Res.Executions++
 	c.Res.States++
 	c.Res.Transitions += int64(len(es))
-	for _, k := range keys {
+	for qi, k := range keys {
 		c.Res.Evaluations++
+		// lookups of other keys probe the same filter in between (a table's filter is asked about every key that is
+		// looked up, members or not); their answers are not judged, the members' answers are
+		for j := 0; j < 3; j++ {
+			f.Contains(fmt.Sprintf("absent-%d-%d", qi, j))
+		}
 		// queried exactly as levelManager.searchLowerBound does: user key of key@readTs
 		if !f.Contains(types.ParseKey(types.KeyWithTs(k, 99))) {
 			c.Violation(fmt.Sprintf("c16/false-negative/n=%d", len(es)), fmt.Sprintf("filter built from %q (versions per key %v) denies member %q", keys, versions, k), nil,
@@ -142,8 +147,11 @@ func c16Units(tier string) []Unit {
 				c.Res.Executions++
 				c.Res.States++
 				c.Res.Transitions += int64(n)
-				for _, e := range es {
+				for i, e := range es {
 					c.Res.Evaluations++
+					if i%3 == 0 {
+						f.Contains(fmt.Sprintf("absent-%d", i)) // interleaved lookups of non-members
+					}
 					if !f.Contains(types.ParseKey(e.Key)) {
 						c.Violation("c16/false-negative/sweep", fmt.Sprintf("filter built from %d entries denies member %q", n, types.ParseKey(e.Key)), nil, map[string]any{"n": n})
 						return
@@ -196,6 +204,7 @@ func c16Units(tier string) []Unit {
 				c.Res.Transitions += 2
 				for _, k := range []string{alpha[i], alpha[j]} {
 					c.Res.Evaluations++
+					rec.FilterContains(0, "absent-"+k)
 					if !rec.FilterContains(0, k) {
 						c.Violation("c16/false-negative/recovered", fmt.Sprintf("filter rebuilt from the table file of %q/%q denies member %q", alpha[i], alpha[j], k), nil, nil)
 						return
@@ -211,7 +220,7 @@ func c16Units(tier string) []Unit {
 func init() {
 	Props["C16"] = &PropMeta{
 		Units: c16Units,
-		Rule: "bounded-exhaustive inputs: every set of 1-3 user keys over all byte strings of length <= 2 from {0x00,'!','@','a',0xff}, each key in 1-3 versions, built with the real filter.Build and " +
+		Rule: "(between the member queries the same filter is asked about non-members, as lookups of other keys do) bounded-exhaustive inputs: every set of 1-3 user keys over all byte strings of length <= 2 from {0x00,'!','@','a',0xff}, each key in 1-3 versions, built with the real filter.Build and " +
 			"queried as the table lookup does; every entry count n = 1..4096 (thorough: ..8192 plus powers of two and neighbours up to 65537) with a deterministic key family, every member queried; " +
 			"filters rebuilt from table files by recover(); a case is non-trivial when the set has >= 2 distinct keys",
 		Assumptions: []string{
